@@ -207,6 +207,20 @@ def observe_dtype_parse(fx, np, props, t, cplx, string, spelling, route):
             y = Fxp(None, dtype=string)
         elif route == 'ctor-val':
             y = Fxp(0.5, dtype=string)
+        elif route in ('ctor-like', 'ctor-template', 'ctor-template-kw'):
+            # the string next to a real-valued reference object of another format (like=, the class-level template, template=):
+            # the string decides the format, the complex suffix included
+            ref = Fxp(1.5, not bool(s), 12, 3)
+            if route == 'ctor-like':
+                y = Fxp(None, like=ref, dtype=string)
+            elif route == 'ctor-template-kw':
+                y = Fxp(None, dtype=string, template=ref)
+            else:
+                Fxp.template = ref
+                try:
+                    y = Fxp(None, dtype=string)
+                finally:
+                    Fxp.template = None
         elif route == 'resize':
             y = Fxp(None, True, 7, 3)
             y.resize(dtype=string)
@@ -225,7 +239,7 @@ def observe_dtype_parse(fx, np, props, t, cplx, string, spelling, route):
             return dict(row, z={'s': bool(sg), 'w': int(nw), 'f': int(nf)}, zc=bool(cplx))
         else:
             raise ValueError(route)
-        zc = bool(y.vdtype == complex) if route in ('ctor', 'resize', 'resize-same', 'roundtrip') else bool(cplx)
+        zc = bool(y.vdtype == complex) if route in ('ctor', 'resize', 'resize-same', 'roundtrip', 'ctor-like', 'ctor-template', 'ctor-template-kw') else bool(cplx)
         return dict(row, z=fmt_of(y), zc=zc, zstr=chars(y.dtype))
     except Exception as ex:
         return dict(row, k='error', err=type(ex).__name__, msg=str(ex)[:200])
